@@ -117,10 +117,30 @@ def strip_drop_scaffolding(raw):
             for x in set(succ):
                 if x == j:
                     continue
-                ch = chain(x)
-                if j not in ch or not any(blocks[y]["term"]["k"] == "drop" for y in ch[:ch.index(j)]):
+                if not leads_only_to(x, j, 0):
                     return False
             return True
+
+        def leads_only_to(x, j, depth):
+            """every way on from x is scaffolding (flag tests, drops) and arrives at j"""
+            if x == j:
+                return True
+            if depth > 6:
+                return False
+            b = blocks[x]
+            if b["cleanup"] or not scaffold_stmts(b):
+                return False
+            t = b["term"]
+            if t["k"] in ("drop", "goto"):
+                return leads_only_to(t["target"], j, depth + 1)
+            if t["k"] == "switch":
+                d = t["discr"]
+                if not (d["k"] in ("copy", "move") and not d["place"]["proj"] and d["place"]["local"] in flags):
+                    return False
+                nxt = [y for _, y in t["targets"]] + [t["otherwise"]]
+                nxt = [y for y in nxt if blocks[y]["term"]["k"] != "unreachable" or blocks[y]["stmts"]]
+                return bool(nxt) and all(leads_only_to(y, j, depth + 1) for y in nxt)
+            return False
 
         def chain_ok(i, depth):
             """block i is scaffolding: only flag resets / discriminant reads, ending in drop / goto /
@@ -176,6 +196,11 @@ def strip_drop_scaffolding(raw):
                     if all(c in ch for ch in chains[1:]):
                         join = c
                         break
+                if join is None:
+                    # arms that test drop flags on their way: the join is the one real block
+                    real = [x for x in succ if not chain_ok(x, 1)]
+                    if len(real) == 1 and all(leads_only_to(x, real[0], 0) for x in succ):
+                        join = real[0]
                 if join is None:
                     continue
                 b["term"] = {"k": "goto", "target": join, "span": t["span"]}
